@@ -138,6 +138,10 @@ type Exec struct {
 	touched   map[string]bool
 	touchSeen map[*Term]bool
 	decided   map[*Term]bool
+	race      bool
+	shadow    map[interface{}]*accessInfo
+	mutexes   map[*Loc]*mutexState
+	atomicVC  map[*Loc]VC
 	ranges    map[string][2]int64 // declared range of verifIntIn inputs
 }
 
